@@ -4,7 +4,7 @@ import dataclasses
 import numpy as np
 from hypothesis import strategies as st
 
-from harness import gen, e2e
+from harness import gen, e2e, buffers
 from harness.core import SubCheck, Violation, E2E_MODES
 from props import common_e2e as ce
 
@@ -85,6 +85,18 @@ def execute_opt(case, t):
     v = case["v"]
     ref = admm.admm_optimize_theta(S, float(v), W, N, rho=case["rho"]).theta
     forms = scalar_forms(v)[1:] + matrix_forms(v, n)
+    # one array object per shape that is refilled in place from case to case (parameter sweep): identity-keyed caches show here
+    # a sweep over weights that refills one preallocated matrix: solve with another weight, refill in place, solve again
+    buf = buffers.reuse("C18.lam", np.full((n, n), float(v)))
+    other = 0.37 if v != 0.37 else 0.21
+    buf.fill(other)
+    admm.admm_optimize_theta(S, buf, W, N, rho=case["rho"])
+    buf.fill(float(v))
+    got = admm.admm_optimize_theta(S, buf, W, N, rho=case["rho"]).theta
+    if got.shape != ref.shape or not np.array_equal(got.view(np.uint64), ref.view(np.uint64)):
+        raise Violation(f"sparsity weight {v} given as a matrix buffer that was refilled in place after a solve with weight {other} "
+                        f"gives a different Theta than the Python float (max |diff| {float(np.max(np.abs(got - ref))):.3g}; N={N}, W={W})")
+    t.cls("form_matrix_f64_refilled_buffer")
     for name, lam in forms:
         keep = lam.copy() if isinstance(lam, np.ndarray) else lam
         try:
@@ -197,8 +209,10 @@ def execute_floor(case, t):
 
 @st.composite
 def e2e_case(draw):
-    cfg = draw(gen.e2e_config(front=("single",), max_N=2, max_W=3, max_K=3, t_range=(30, 70), limits=(1, 2, 3),
-                              lam_forms=("scalar",), beta_forms=("scalar",)))
+    cfg = draw(gen.e2e_config(front=("single", "single", "joint"), max_N=2, max_W=3, max_K=3, t_range=(30, 70), limits=(1, 2, 3),
+                              lam_forms=("scalar",), beta_forms=("scalar",), max_series=3))
+    cfg["reuse_buffers"] = False
+    cfg["prior_calls_on_same_arrays"] = False
     cfg["param"] = draw(st.sampled_from(["lam", "beta", "eps"]))
     cfg["v"] = draw(st.sampled_from(VALUES if cfg["param"] != "eps" else [0.0, 1.0, 0.5, 0.125, 0.011, 0.11]))
     cfg["form_pick"] = draw(st.integers(0, 10 ** 6))
@@ -212,7 +226,7 @@ def _digest(res):
         if f.name == "markov_random_fields":
             out[f.name] = [np.ascontiguousarray(m, dtype=np.float64).tobytes() for m in v]
         elif f.name == "point_labels":
-            out[f.name] = [int(x) for x in v]
+            out[f.name] = [[int(x) for x in lst] for lst in v] if (len(v) and isinstance(v[0], (list, tuple))) else [int(x) for x in v]
         else:
             out[f.name] = np.asarray(v, dtype=np.float64).tobytes()
     return out
@@ -223,7 +237,7 @@ def execute_e2e(case, t):
     base = dict(case)
     param = case["param"]
     nw = case["N"] * case["W"]
-    T = case["lengths"][0] - case["W"] + 1
+    T = sum(L - case["W"] + 1 for L in case["lengths"])
     if param == "lam":
         base["lam"] = v
         forms = scalar_forms(v)[1:] + matrix_forms(v, nw)
@@ -255,6 +269,7 @@ def execute_e2e(case, t):
         if isinstance(val, np.ndarray) and not (np.array_equal(val, keep) and val.dtype == keep.dtype):
             raise Violation(f"the run modified the caller's {key} array")
         t.cls(f"{param}_as_{name}")
+    t.cls(f"front_{case['front']}")
     if len(chosen) >= 2:
         t.mark_nontrivial({"param": param, "v": v, "forms": [c[0] for c in chosen], **ce.brief_result(ref)})
 
